@@ -28,6 +28,10 @@ CHECKS = {
             "runtime monitor: independent content-file decoder + GF(2^8) parity oracle over a harness-owned version store, applied after every command of random histories (plain and ASan/UBSan builds)",
             "After every single command of random histories (syncs of all kinds incl. partial, forced, pre-hash, autosave, kill-after-sync; scrub; fix after random damage; rehash; touch; disk removal/addition leaving position holes) each on-disk content file is decoded independently, the block-map invariants are asserted and every stripe whose blocks are all recorded synced is recomputed from the version store and compared with the parity files at the offset given by the recorded split sizes. This is the right level because the property is a state invariant quantified over histories: an oracle after each step over thousands of sampled histories observes exactly the state the property talks about.",
             "Histories are sampled (300 quick / 6000 thorough), not enumerated. Damage injected by the harness itself is tolerated (fix must only not break more). Durability ordering (fsync before content) is observed and reported but not judged: the property does not state it and a process kill cannot expose it."),
+    "C07": ("fault_enumeration",
+            "fault enumeration over kill points: LD_PRELOAD shim numbers every state-changing system call of sync/fix and kills the process before/after/in the middle of call k, or raises SIGINT at the j-th parity write; oracles = data snapshot diff, content loadability, version-store recovery test, resume sync + parity oracle + recovery + check, twin comparison for fix",
+            "Every state-changing call on data/parity/content files of sync and of fix is a kill point in three modes (all of them in thorough, stratified in quick), plus SIGINT at every parity write and kills after each content rename with slowed parity writers. After each interruption the properties' own clauses are evaluated: data untouched, a content file loads, earlier files recoverable meanwhile (adds-only), a second sync re-establishes parity validity and recoverability; for fix, a second run converges to the uninterrupted twin's tree.",
+            "Kill = process death, page cache survives. Hash size 16 only (reduced hash sizes cannot represent the special ZERO hash the adds-only guarantee relies on; documented limitation). Open findings F15, F16, F17 are reported as KNOWN-FINDING by mechanism key."),
     "C09": ("fault_enumeration",
             "runtime monitor: one ASan/UBSan process per content-file mutant (bits, truncations, bytes, field-aware varints/tags) with unchanged-state oracle; kill enumeration over every content-file system call through the LD_PRELOAD shim with old-or-new-version oracle and an ordering spec on the recorded event log",
             "Fault enumeration: every single bit and every truncation length of content files of 3 (quick) / 12 (thorough) shapes covering format 2 and 3 and all record kinds, plus field-aware damage aimed at length/count/position fields; each mutant is one process under ASan+UBSan and must be rejected with nothing modified. Every content-file system call of test-rewrite/touch/sync is a kill point (before/after/mid-write) for 1..7 copies; each copy must remain a complete old or new version. The save protocol (O_EXCL tmp, fsync, re-read to EOF, rename) is checked on every recorded event log.",
